@@ -38,8 +38,8 @@ if common.REPO != '/repo':
 
 warnings.filterwarnings('ignore')
 
-PROP_MAIN = ['Lcapy/Props/C16.lean', 'Lcapy/Props/C16Tables.lean']
-PROP_CODE = ['Lcapy/Props/C16Full.lean', 'Lcapy/Props/C16Order.lean']      # build iff the code has no F14 / F7
+PROP_MAIN = ['Lcapy/Props/C16.lean', 'Lcapy/Props/C16Tables.lean', 'Lcapy/Props/C16Full.lean']
+PROP_CODE = ['Lcapy/Props/C16Order.lean']      # builds iff the code has no F7 (known finding, open)
 HELPERS = ['Lcapy/Model/Cache.lean', 'Lcapy/Model/CacheAux.lean', 'Lcapy/Spec/Cache.lean',
            'Lcapy/Proofs/CacheTab.lean', 'Lcapy/Proofs/CacheElts.lean', 'Lcapy/Proofs/CacheInv.lean',
            'Lcapy/Proofs/CacheIso.lean', 'Lcapy/Proofs/CacheAux.lean', 'Lcapy/Driver/C16.lean',
@@ -53,6 +53,11 @@ SOLVE_QUERIES = ['get_Vd', 'get_I']
 HEAVY_QUERIES = ['sim', 'transfer', 'state_space']
 DERIVES = ['copy', 'kill', 'select', 'simplify', 'remove_dangling', 'subs']
 NODES = ['0', '1', '2', '3', '4']
+SOLVE_TIMEOUT = 25.0
+
+
+class Timeout(Exception):
+    pass
 
 
 # --------------------------------------------------------------------------- the real Lcapy side
@@ -71,9 +76,10 @@ class Real:
         self.nops = 0
         self.spoint = sympy.Rational(7, 3)
 
-    def fresh(self, text):
+    def fresh(self, text, kind='super'):
+        """Circuit(<netlist text>) of the same transform-domain kind (`select()` stores the kind outside the text)"""
         C = self.lcapy.Circuit
-        c = C()
+        c = C(kind=kind)
         if text.strip():
             c.add(text)
         return c
@@ -115,7 +121,20 @@ class Real:
         return 'val:' + str(v)
 
     def query(self, c, q, arg=None):
-        """canonical string answer; exceptions become error:<Type>"""
+        """canonical string answer; exceptions become error:<Type>; solves are cut after SOLVE_TIMEOUT seconds"""
+        import signal
+
+        def on_alarm(signum, frame):
+            raise Timeout()
+        oldh = signal.signal(signal.SIGALRM, on_alarm)
+        signal.setitimer(signal.ITIMER_REAL, SOLVE_TIMEOUT)
+        try:
+            return self.query1(c, q, arg)
+        finally:
+            signal.setitimer(signal.ITIMER_REAL, 0)
+            signal.signal(signal.SIGALRM, oldh)
+
+    def query1(self, c, q, arg=None):
         try:
             if q in LIST_QUERIES:
                 return self.canon([str(k) for k in getattr(c, q)])
@@ -244,7 +263,7 @@ class History:
         c = self.insts[i]
         hist = self.R.structural(c)
         self.pending.append({'what': 'struct', 'k': len(self.ops), 'i': i, 'cause': cause, 'taint': self.taint[i],
-                             'text': self.R.text(c), 'hist': hist})
+                             'text': self.R.text(c), 'kind': c.kind, 'hist': hist})
         if self.modelled[i]:
             r = self.drv.ask1('c16.obs %d %s' % (i, self.model_ops()))
             mod = [t for t in r.split() if t.split('=')[0] in ('elts', 'counts', 'dang')]
@@ -268,7 +287,7 @@ class History:
         self.chk.count('query', q)
         self.chk.count('answer-kind', 'error' if got.startswith('error:') else 'value')
         self.pending.append({'what': 'query', 'k': len(self.ops), 'i': i, 'q': q, 'arg': arg, 'taint': self.taint[i],
-                             'text': self.R.text(c), 'hist': got, 'trace': trace_rec, 'modelled': self.modelled[i],
+                             'text': self.R.text(c), 'kind': c.kind, 'hist': got, 'trace': trace_rec, 'modelled': self.modelled[i],
                              'snap': dict(self.snap[i])})
         return got
 
@@ -287,7 +306,7 @@ class History:
 
     def finish_struct(self, p):
         i = p['i']
-        fresh = self.R.structural(self.R.fresh(p['text']))
+        fresh = self.R.structural(self.R.fresh(p['text'], p['kind']))
         if not self.spec_same(p['hist'], fresh) and self.struct_flagged.get(i) != p['taint']:
             self.struct_flagged[i] = p['taint']
             self.counterexample({'kind': 'node-count', 'after': p['taint'], 'op': p['cause']},
@@ -296,7 +315,10 @@ class History:
 
     def finish_query(self, p):
         i, q, arg, got, trace_rec = p['i'], p['q'], p['arg'], p['hist'], p['trace']
-        want = self.R.query(self.R.fresh(p['text']), q, arg)
+        want = self.R.query(self.R.fresh(p['text'], p['kind']), q, arg)
+        if 'error:Timeout' in (got, want):
+            self.chk.count('degenerate', 'solver-timeout')
+            return
         slots = [] if trace_rec in ('-', None) else trace_rec.split(',')
         stale = [s for s in slots if '=stale@' in s]
         dirty = [s for s in slots if s.endswith(':dirty')]
@@ -325,7 +347,7 @@ class History:
             elif stale and len(slots) == 1:
                 k = int(stale[0].split('@')[1].split(':')[0])
                 old = p['snap'].get(k)
-                pred = self.R.query(self.R.fresh(old), q, arg) if old is not None else None
+                pred = self.R.query(self.R.fresh(old, p['kind']), q, arg) if old is not None else None
                 if pred == got:
                     self.chk.count('model-prediction', 'stale-confirmed')
                 elif got == want:
@@ -341,7 +363,7 @@ class History:
     def finish_derive(self, p):
         kind, i = p['kind'], p['i']
         try:
-            fd = self.R.derive(self.R.fresh(p['text']), kind)
+            fd = self.R.derive(self.R.fresh(p['text'], p['ckind']), kind)
             ferr = None
         except Exception as e:      # noqa
             fd, ferr = None, 'error:' + type(e).__name__
@@ -434,7 +456,7 @@ class History:
             d, err = None, 'error:' + type(e).__name__
         self.chk.count('op', 'derive-' + kind)
         a = [kind, err or self.R.text(d).replace('\n', '\\n').replace(' ', '_')]
-        self.pending.append({'what': 'derive', 'k': len(self.ops) + 1, 'i': i, 'kind': kind, 'taint': self.taint[i],
+        self.pending.append({'what': 'derive', 'k': len(self.ops) + 1, 'i': i, 'kind': kind, 'ckind': c.kind, 'taint': self.taint[i],
                              'text': before, 'hist': a})
         if self.R.text(c) != before:
             self.counterexample({'kind': 'source-changed', 'op': kind, 'after': self.taint[i]},
@@ -503,14 +525,18 @@ BASES = [
 ]
 
 
-def gen_history(chk, h, rng, nops, heavy):
+def gen_history(chk, h, rng, nops, heavy, deadline=None):
     nb = 2
     for b in range(nb):
         h.do_new(list(rng.choice(BASES)))
     active = [0, 1]
     steps = 0
+    nheavy = 0
     while steps < nops:
         steps += 1
+        if deadline is not None and time.time() > deadline:
+            chk.count('degenerate', 'history-cut-by-time-budget')
+            break
         i = rng.choice(active)
         c = h.insts[i]
         names = list(c._elements.keys())
@@ -544,7 +570,8 @@ def gen_history(chk, h, rng, nops, heavy):
                 active.append(j)
         elif r < 0.97 and heavy:
             q = rng.choice(HEAVY_QUERIES)
-            if '0' in c.nodes:
+            if '0' in c.nodes and len(names) <= 6 and nheavy < 3:
+                nheavy += 1
                 if q == 'transfer':
                     nodes = sorted(n for n in c.nodes if n != '0')
                     if len(nodes) >= 2:
@@ -830,13 +857,13 @@ def run(chk, replay=None):
 
     # ---- 4. random histories
     nhist = 50 if quick else 220
-    budget = 100 if quick else 800
+    budget = 100 if quick else 450
     for k in range(nhist):
         if time.time() - t0 > budget:
             chk.coverage['histories_cut_by_time_budget'] = nhist - k
             break
         nops = rng.randint(20, 45) if quick else (rng.randint(40, 90) if k % 6 else 200)
-        run_one('random-%d' % k, lambda h, n=nops: gen_history(chk, h, rng, n, heavy=not quick))
+        run_one('random-%d' % k, lambda h, n=nops: gen_history(chk, h, rng, n, heavy=not quick, deadline=t0 + budget))
     chk.coverage['histories'] = k + 1
 
     # ---- 5. transforms: every expression under every kwargs set, twice, in random order
@@ -864,7 +891,8 @@ def run(chk, replay=None):
                 'override_detaches': lambda k: k.get('after') == 'override',
                 'node_delete_guarded': lambda k: k.get('after') == 'failed-remove',
                 'fresh_refinement_current': lambda k: k.get('kind') == 'stale-memo' or k.get('after') in ('override', 'failed-remove'),
-                'no_hash_order_iteration': lambda k: k.get('kind') == 'hash-seed'}
+                'no_hash_order_iteration': lambda k: k.get('kind') == 'hash-seed',
+                'transform_keys_complete': lambda k: k.get('kind') == 'transform-cache'}
     unmatched = [k for k in all_found if common.match_finding(chk.findings, k) is None]
     for b in allb:
         thm = b.split(':')[-1]
